@@ -319,7 +319,7 @@ theorem plen_chebStep (B np nm : ℕ) (sm s : List ℕ × List ℕ) (k : ℕ) (h
     plen (chebStep listOps B np nm sm s) (k + 1) := by
   obtain ⟨h1, h2⟩ := plen_mulLin np nm s k h
   obtain ⟨h3, h4⟩ := hm
-  simp only [plen, chebStep, ladd_length] at *
+  simp only [plen, chebStep] at *
   simp only [listOps, ladd_length, List.length_map] at *
   omega
 
@@ -533,6 +533,212 @@ theorem sqmap_sound (B : ℕ) (lo hi : ℤ) (θ : ℝ)
       push_cast
       nlinarith [hab.2]
     exact le_of_mul_le_mul_right this hp
+
+
+/-! ### cascades -/
+
+/-- product of the halved stage amplitudes; the first stage of the list sees `φ`, the next `2φ`, … -/
+noncomputable def cascAmp : List (ℕ × List (ℕ × ℕ)) → ℝ → ℝ
+  | [], _ => 1
+  | st :: rest, φ => ampN st.1 st.2 φ / 2 * cascAmp rest (2 * φ)
+
+/-- `(num, den)` with `|cascAmp st φ| ≤ num/den` whenever `2^B·cos φ ∈ [lo, hi]` -/
+def cascAbs (B : ℕ) : List (ℕ × List (ℕ × ℕ)) → ℤ → ℤ → ℕ × ℕ
+  | [], _, _ => (1, 1)
+  | st :: rest, lo, hi =>
+    let ab := stageBnd B st.1 st.2 lo hi
+    let lh := sqmap B lo hi
+    let nd := cascAbs B rest lh.1 lh.2
+    (max ab.1.natAbs ab.2.natAbs * nd.1, 2 ^ (st.1 + 1 + B * (2 * st.2.length - 1)) * nd.2)
+
+theorem cascAbs_sound (B : ℕ) (st : List (ℕ × List (ℕ × ℕ))) (lo hi : ℤ) (φ : ℝ)
+    (h1 : (lo : ℝ) ≤ 2 ^ B * Real.cos φ) (h2 : 2 ^ B * Real.cos φ ≤ hi) :
+    0 < (cascAbs B st lo hi).2 ∧ |cascAmp st φ| * (cascAbs B st lo hi).2 ≤ (cascAbs B st lo hi).1 := by
+  induction st generalizing lo hi φ with
+  | nil => simp [cascAbs, cascAmp]
+  | cons s rest ih =>
+    obtain ⟨a1, a2⟩ := stageBnd_sound B s.1 s.2 lo hi φ h1 h2
+    obtain ⟨q1, q2⟩ := sqmap_sound B lo hi φ h1 h2
+    obtain ⟨i1, i2⟩ := ih _ _ (2 * φ) q1 q2
+    simp only [cascAbs, cascAmp]
+    set ab := stageBnd B s.1 s.2 lo hi
+    set nd := cascAbs B rest (sqmap B lo hi).1 (sqmap B lo hi).2
+    set sc : ℝ := 2 ^ (s.1 + B * (2 * s.2.length - 1)) with hsc
+    have hscp : 0 < sc := by positivity
+    refine ⟨by positivity, ?_⟩
+    have hA : |sc * ampN s.1 s.2 φ| ≤ ((max ab.1.natAbs ab.2.natAbs : ℕ) : ℝ) := by
+      have := abs_le_max_abs_abs a1 a2
+      have e1 : ((ab.1.natAbs : ℕ) : ℝ) = |(ab.1 : ℝ)| := by
+        rw [← Int.cast_abs, Nat.cast_natAbs]
+      have e2 : ((ab.2.natAbs : ℕ) : ℝ) = |(ab.2 : ℝ)| := by
+        rw [← Int.cast_abs, Nat.cast_natAbs]
+      rw [Nat.cast_max, e1, e2]; exact this
+    have e : (((2 ^ (s.1 + 1 + B * (2 * s.2.length - 1)) * nd.2 : ℕ)) : ℝ) = 2 * sc * nd.2 := by
+      push_cast; rw [hsc]; ring
+    rw [e, abs_mul, abs_div, abs_of_pos (by norm_num : (0:ℝ) < 2)]
+    rw [abs_mul, abs_of_pos hscp] at hA
+    push_cast
+    have hnd : (0:ℝ) ≤ nd.1 := Nat.cast_nonneg _
+    calc |ampN s.1 s.2 φ| / 2 * |cascAmp rest (2 * φ)| * (2 * sc * nd.2)
+        = (sc * |ampN s.1 s.2 φ|) * (|cascAmp rest (2 * φ)| * nd.2) := by ring
+      _ ≤ (max (ab.1.natAbs : ℝ) (ab.2.natAbs : ℝ)) * nd.1 := by
+          apply mul_le_mul _ i2 (by positivity) (by positivity)
+          simpa using hA
+
+/-- `(ok, lo', hi', den)`: if `ok` then `lo'/den ≤ cascAmp st φ ≤ hi'/den` whenever `2^B·cos φ ∈ [lo, hi]`
+    (`ok` records that every stage is certified non-negative on its cell) -/
+def cascPos (B : ℕ) : List (ℕ × List (ℕ × ℕ)) → ℤ → ℤ → Bool × ℕ × ℕ × ℕ
+  | [], _, _ => (true, 1, 1, 1)
+  | st :: rest, lo, hi =>
+    let ab := stageBnd B st.1 st.2 lo hi
+    let lh := sqmap B lo hi
+    let r := cascPos B rest lh.1 lh.2
+    (decide (0 ≤ ab.1) && r.1, ab.1.toNat * r.2.1, ab.2.toNat * r.2.2.1,
+      2 ^ (st.1 + 1 + B * (2 * st.2.length - 1)) * r.2.2.2)
+
+theorem cascPos_sound (B : ℕ) (st : List (ℕ × List (ℕ × ℕ))) (lo hi : ℤ) (φ : ℝ)
+    (h1 : (lo : ℝ) ≤ 2 ^ B * Real.cos φ) (h2 : 2 ^ B * Real.cos φ ≤ hi)
+    (hok : (cascPos B st lo hi).1 = true) :
+    0 < (cascPos B st lo hi).2.2.2 ∧
+    ((cascPos B st lo hi).2.1 : ℝ) ≤ cascAmp st φ * (cascPos B st lo hi).2.2.2 ∧
+    cascAmp st φ * (cascPos B st lo hi).2.2.2 ≤ ((cascPos B st lo hi).2.2.1 : ℝ) := by
+  induction st generalizing lo hi φ with
+  | nil => simp [cascPos, cascAmp]
+  | cons s rest ih =>
+    obtain ⟨a1, a2⟩ := stageBnd_sound B s.1 s.2 lo hi φ h1 h2
+    obtain ⟨q1, q2⟩ := sqmap_sound B lo hi φ h1 h2
+    simp only [cascPos, Bool.and_eq_true, decide_eq_true_eq] at hok
+    obtain ⟨i0, i1, i2⟩ := ih _ _ (2 * φ) q1 q2 hok.2
+    simp only [cascPos, cascAmp]
+    set ab := stageBnd B s.1 s.2 lo hi
+    set r := cascPos B rest (sqmap B lo hi).1 (sqmap B lo hi).2
+    set sc : ℝ := 2 ^ (s.1 + B * (2 * s.2.length - 1)) with hsc
+    have hscp : 0 < sc := by positivity
+    have hab0 : (0:ℝ) ≤ ab.1 := by exact_mod_cast hok.1
+    have e1 : ((ab.1.toNat : ℕ) : ℝ) = ab.1 := by
+      have : ((ab.1.toNat : ℕ) : ℤ) = ab.1 := Int.toNat_of_nonneg hok.1
+      exact_mod_cast this
+    have hab2 : (0:ℤ) ≤ ab.2 := by
+      have : (ab.1 : ℝ) ≤ ab.2 := le_trans a1 a2
+      have : ab.1 ≤ ab.2 := by exact_mod_cast this
+      omega
+    have e2 : ((ab.2.toNat : ℕ) : ℝ) = ab.2 := by
+      have : ((ab.2.toNat : ℕ) : ℤ) = ab.2 := Int.toNat_of_nonneg hab2
+      exact_mod_cast this
+    have e : (((2 ^ (s.1 + 1 + B * (2 * s.2.length - 1)) * r.2.2.2 : ℕ)) : ℝ) = 2 * sc * r.2.2.2 := by
+      push_cast; rw [hsc]; ring
+    refine ⟨by positivity, ?_, ?_⟩
+    · rw [e]; push_cast; rw [e1]
+      have hr1 : (0:ℝ) ≤ r.2.1 := Nat.cast_nonneg _
+      calc (ab.1 : ℝ) * r.2.1 ≤ (sc * ampN s.1 s.2 φ) * (cascAmp rest (2 * φ) * r.2.2.2) :=
+            mul_le_mul a1 i1 hr1 (le_trans hab0 a1)
+        _ = _ := by ring
+    · rw [e]; push_cast; rw [e2]
+      have hA0 : 0 ≤ sc * ampN s.1 s.2 φ := le_trans hab0 a1
+      have hC0 : 0 ≤ cascAmp rest (2 * φ) * r.2.2.2 := le_trans (Nat.cast_nonneg _) i1
+      calc ampN s.1 s.2 φ / 2 * cascAmp rest (2 * φ) * (2 * sc * r.2.2.2)
+          = (sc * ampN s.1 s.2 φ) * (cascAmp rest (2 * φ) * r.2.2.2) := by ring
+        _ ≤ (ab.2 : ℝ) * r.2.2.1 := mul_le_mul a2 i2 hC0 (le_trans hA0 a2)
+
+/-! ### bisection -/
+
+/-- `|cascAmp st φ| ≤ tn/td` on the cell `[lo, hi]/2^B`, certified on a bisection tree of depth ≤ `fuel` -/
+def bisectAbs (B : ℕ) (st : List (ℕ × List (ℕ × ℕ))) (tn td : ℕ) : ℕ → ℤ → ℤ → Bool
+  | 0, lo, hi => decide ((cascAbs B st lo hi).1 * td ≤ tn * (cascAbs B st lo hi).2)
+  | f + 1, lo, hi =>
+    if (cascAbs B st lo hi).1 * td ≤ tn * (cascAbs B st lo hi).2 then true
+    else bisectAbs B st tn td f lo ((lo + hi) / 2) && bisectAbs B st tn td f ((lo + hi) / 2) hi
+
+theorem leaf_abs (B : ℕ) (st : List (ℕ × List (ℕ × ℕ))) (tn td : ℕ) (htd : 0 < td) (lo hi : ℤ) (φ : ℝ)
+    (h1 : (lo : ℝ) ≤ 2 ^ B * Real.cos φ) (h2 : 2 ^ B * Real.cos φ ≤ hi)
+    (h : (cascAbs B st lo hi).1 * td ≤ tn * (cascAbs B st lo hi).2) :
+    |cascAmp st φ| ≤ (tn : ℝ) / td := by
+  obtain ⟨p, q⟩ := cascAbs_sound B st lo hi φ h1 h2
+  have hd : (0:ℝ) < (cascAbs B st lo hi).2 := by exact_mod_cast p
+  have ht : (0:ℝ) < td := by exact_mod_cast htd
+  have h' : ((cascAbs B st lo hi).1 : ℝ) * td ≤ tn * (cascAbs B st lo hi).2 := by exact_mod_cast h
+  rw [le_div_iff₀ ht]
+  have : |cascAmp st φ| * td * (cascAbs B st lo hi).2 ≤ tn * (cascAbs B st lo hi).2 := by
+    calc |cascAmp st φ| * td * (cascAbs B st lo hi).2 = |cascAmp st φ| * (cascAbs B st lo hi).2 * td := by ring
+      _ ≤ (cascAbs B st lo hi).1 * td := mul_le_mul_of_nonneg_right q ht.le
+      _ ≤ _ := h'
+  exact le_of_mul_le_mul_right this hd
+
+theorem split_cell (lo hi : ℤ) (y : ℝ) (h1 : (lo : ℝ) ≤ y) (h2 : y ≤ hi) :
+    ((lo : ℝ) ≤ y ∧ y ≤ (((lo + hi) / 2 : ℤ) : ℝ)) ∨ ((((lo + hi) / 2 : ℤ) : ℝ) ≤ y ∧ y ≤ hi) := by
+  rcases le_total y (((lo + hi) / 2 : ℤ) : ℝ) with h | h
+  · exact Or.inl ⟨h1, h⟩
+  · exact Or.inr ⟨h, h2⟩
+
+theorem bisectAbs_sound (B : ℕ) (st : List (ℕ × List (ℕ × ℕ))) (tn td : ℕ) (htd : 0 < td) (fuel : ℕ)
+    (lo hi : ℤ) (h : bisectAbs B st tn td fuel lo hi = true) (φ : ℝ)
+    (h1 : (lo : ℝ) ≤ 2 ^ B * Real.cos φ) (h2 : 2 ^ B * Real.cos φ ≤ hi) :
+    |cascAmp st φ| ≤ (tn : ℝ) / td := by
+  induction fuel generalizing lo hi with
+  | zero =>
+    simp only [bisectAbs, decide_eq_true_eq] at h
+    exact leaf_abs B st tn td htd lo hi φ h1 h2 h
+  | succ f ih =>
+    simp only [bisectAbs] at h
+    split at h
+    · next hc => exact leaf_abs B st tn td htd lo hi φ h1 h2 hc
+    · simp only [Bool.and_eq_true] at h
+      rcases split_cell lo hi _ h1 h2 with ⟨a, b⟩ | ⟨a, b⟩
+      · exact ih _ _ h.1 a b
+      · exact ih _ _ h.2 a b
+
+/-- `tl/td ≤ cascAmp st φ ≤ th/td` on the cell `[lo, hi]/2^B`, certified on a bisection tree of depth ≤ `fuel` -/
+def leafPos (B : ℕ) (st : List (ℕ × List (ℕ × ℕ))) (tl th td : ℕ) (lo hi : ℤ) : Bool :=
+  (cascPos B st lo hi).1 && decide (tl * (cascPos B st lo hi).2.2.2 ≤ (cascPos B st lo hi).2.1 * td) &&
+    decide ((cascPos B st lo hi).2.2.1 * td ≤ th * (cascPos B st lo hi).2.2.2)
+
+def bisectPos (B : ℕ) (st : List (ℕ × List (ℕ × ℕ))) (tl th td : ℕ) : ℕ → ℤ → ℤ → Bool
+  | 0, lo, hi => leafPos B st tl th td lo hi
+  | f + 1, lo, hi =>
+    if leafPos B st tl th td lo hi then true
+    else bisectPos B st tl th td f lo ((lo + hi) / 2) && bisectPos B st tl th td f ((lo + hi) / 2) hi
+
+theorem leaf_pos (B : ℕ) (st : List (ℕ × List (ℕ × ℕ))) (tl th td : ℕ) (htd : 0 < td) (lo hi : ℤ) (φ : ℝ)
+    (h1 : (lo : ℝ) ≤ 2 ^ B * Real.cos φ) (h2 : 2 ^ B * Real.cos φ ≤ hi)
+    (h : leafPos B st tl th td lo hi = true) :
+    (tl : ℝ) / td ≤ cascAmp st φ ∧ cascAmp st φ ≤ (th : ℝ) / td := by
+  simp only [leafPos, Bool.and_eq_true, decide_eq_true_eq] at h
+  obtain ⟨⟨hok, hl⟩, hh⟩ := h
+  obtain ⟨p, q1, q2⟩ := cascPos_sound B st lo hi φ h1 h2 hok
+  have hd : (0:ℝ) < (cascPos B st lo hi).2.2.2 := by exact_mod_cast p
+  have ht : (0:ℝ) < td := by exact_mod_cast htd
+  have hl' : (tl : ℝ) * (cascPos B st lo hi).2.2.2 ≤ (cascPos B st lo hi).2.1 * td := by exact_mod_cast hl
+  have hh' : ((cascPos B st lo hi).2.2.1 : ℝ) * td ≤ th * (cascPos B st lo hi).2.2.2 := by exact_mod_cast hh
+  constructor
+  · rw [div_le_iff₀ ht]
+    have : (tl : ℝ) * (cascPos B st lo hi).2.2.2 ≤ cascAmp st φ * td * (cascPos B st lo hi).2.2.2 := by
+      calc (tl : ℝ) * (cascPos B st lo hi).2.2.2 ≤ (cascPos B st lo hi).2.1 * td := hl'
+        _ ≤ cascAmp st φ * (cascPos B st lo hi).2.2.2 * td := mul_le_mul_of_nonneg_right q1 ht.le
+        _ = _ := by ring
+    exact le_of_mul_le_mul_right this hd
+  · rw [le_div_iff₀ ht]
+    have : cascAmp st φ * td * (cascPos B st lo hi).2.2.2 ≤ th * (cascPos B st lo hi).2.2.2 := by
+      calc cascAmp st φ * td * (cascPos B st lo hi).2.2.2 = cascAmp st φ * (cascPos B st lo hi).2.2.2 * td := by ring
+        _ ≤ (cascPos B st lo hi).2.2.1 * td := mul_le_mul_of_nonneg_right q2 ht.le
+        _ ≤ _ := hh'
+    exact le_of_mul_le_mul_right this hd
+
+theorem bisectPos_sound (B : ℕ) (st : List (ℕ × List (ℕ × ℕ))) (tl th td : ℕ) (htd : 0 < td) (fuel : ℕ)
+    (lo hi : ℤ) (h : bisectPos B st tl th td fuel lo hi = true) (φ : ℝ)
+    (h1 : (lo : ℝ) ≤ 2 ^ B * Real.cos φ) (h2 : 2 ^ B * Real.cos φ ≤ hi) :
+    (tl : ℝ) / td ≤ cascAmp st φ ∧ cascAmp st φ ≤ (th : ℝ) / td := by
+  induction fuel generalizing lo hi with
+  | zero =>
+    simp only [bisectPos] at h
+    exact leaf_pos B st tl th td htd lo hi φ h1 h2 h
+  | succ f ih =>
+    simp only [bisectPos] at h
+    split at h
+    · next hc => exact leaf_pos B st tl th td htd lo hi φ h1 h2 hc
+    · simp only [Bool.and_eq_true] at h
+      rcases split_cell lo hi _ h1 h2 with ⟨a, b⟩ | ⟨a, b⟩
+      · exact ih _ _ h.1 a b
+      · exact ih _ _ h.2 a b
 
 end HbfSpec
 end Idsp
